@@ -310,7 +310,7 @@ for _fam, _txt, _n in [("gen_rook", "rook", 6), ("gen_bishop", "bishop", 6), ("g
        complete=True)
 ob("shortcut_lemma_{i}", "chess::verif_chess::inst::shortcut_lemma::sq{i}", ["C01"],
    "rules only: king on sq not attacked, pseudo-legal non-king Normal move from a non-aligned square => king still not attacked",
-   ["spec (lemma used by the filter's shortcut)"], instances=SQ, quick_instances=8, quick_fixed=["00", "04", "27", "60"], timeout=600)
+   ["spec (lemma used by the filter's shortcut)"], instances=SQ, timeout=600)
 ob("gen_body", "chess::verif_chess::inst::gen_body", ["C01"],
    "slice verif_gen_body vs Piece::get_moves recorder: called exactly once with (piece on sq, sq) iff an own piece stands on sq", ["Game::get_moves (generation loop body)"], timeout=300)
 ob("filter_body", "chess::verif_chess::inst::filter_body", ["C01", "C03"],
@@ -472,3 +472,9 @@ ob("native_display_and_record", "chess::verif_chess::fen::native_display_and_rec
    bounded_note="concrete native run of the glue; not a proof")
 ob("get_moves_prologue", "chess::verif_chess::inst::get_moves_prologue", ["C01"],
    "slice verif_get_moves_prologue: output list emptied; generation goes on iff the mover's cached king square holds a king", ["Game::get_moves (prologue)", "Game::king_exists"], timeout=300)
+ob("king_capture_lemma_{i}", "chess::verif_chess::inst::king_capture_lemma::sq{i}", ["C02", "C01"],
+   "rules only: a valid move (Normal or Promotion) onto the enemy king's square sq implies that king is attacked (WF9 => no generated move captures a king: push's precondition)",
+   ["spec (lemma)"], instances=SQ, timeout=600)
+ob("ep_invariant_lemma", "chess::verif_chess::inst::ep_invariant_lemma", ["C02", "C01", "C12"],
+   "rules only: spec::apply records an e.p. file only after a pawn double step, with that pawn on the 4th/5th rank of the file and the skipped square empty (WF7 established)",
+   ["spec::apply (lemma)"], timeout=600)
